@@ -153,7 +153,7 @@ func TestVerifC12(t *testing.T) {
 		_, err = gc.MetadataStore().AddDeviceToGroup(w.ctx)
 		vmust(err)
 		for _, e := range gc.MetadataStore().OpLog().Values().Slice() {
-			_, ev, err := openMetadataEntry(gc.MetadataStore().OpLog(), e, inv)
+			_, ev, err := vOpenMetadataEntry(gc.MetadataStore().OpLog(), e, inv)
 			vmust(err)
 			if a, ok := ev.(*protocoltypes.GroupMemberDeviceAdded); ok {
 				if bytes.Equal(a.MemberPk, accPK) || bytes.Equal(a.DevicePk, accDev) {
@@ -267,10 +267,10 @@ func TestVerifC12(t *testing.T) {
 			op, err := parseOp(e)
 			vmust(err)
 			nEnv++
-			if _, _, err := openGroupEnvelope(gr.g, op); err != nil {
+			if _, _, err := vOpenGroupEnvelope(gr.g, op); err != nil {
 				rep.Violation("HARNESS/c12", "member cannot open its own metadata: "+err.Error(), nil)
 			}
-			_, _, err = openGroupEnvelope(desc, op)
+			_, _, err = vOpenGroupEnvelope(desc, op)
 			rep.Eval(fmt.Sprintf("descriptor/%s/metadata-envelope-opens=%v", gr.name, err == nil))
 			if err == nil {
 				rep.Violation("C12/descriptor-opens-metadata", gr.name+" group: a metadata event opens with the replication descriptor", gr.name)
